@@ -63,16 +63,18 @@ type acctServer struct {
 	port   int
 	secret []byte
 
-	mu      sync.Mutex
-	log     []Rec
-	inc     int
-	seen    map[string]struct{}
-	late    time.Duration // answer this late (the request is logged at once)
-	dropN   int           // silently ignore the next dropN authentic requests (real-time scenario only)
-	dropped int
-	badAuth int
-	retrans int
-	other   int
+	mu       sync.Mutex
+	log      []Rec
+	inc      int
+	seen     map[string]struct{}
+	late     time.Duration // answer this late (the request is logged at once)
+	barriers map[string]chan struct{}
+	barrierN uint32
+	dropN    int // silently ignore the next dropN authentic requests (real-time scenario only)
+	dropped  int
+	badAuth  int
+	retrans  int
+	other    int
 }
 
 func newAcctServer(secret string) (*acctServer, error) {
@@ -100,6 +102,38 @@ func (s *acctServer) setDrop(n int) { s.mu.Lock(); s.dropN = n; s.mu.Unlock() }
 
 func (s *acctServer) setInc(inc int) { s.mu.Lock(); s.inc = inc; s.mu.Unlock() }
 
+const barrierMagic = "c08-barrier:"
+
+// barrier returns when every datagram that was in the server's socket before the call has been
+// read and logged (a child that has just exited may have sent its last request a moment ago; it
+// must be attributed to that child's incarnation, not to the next one). Datagrams of one
+// socket are delivered in order, so a marker datagram sent now is read after all of them.
+func (s *acctServer) barrier() bool {
+	c, err := net.DialUDP("udp4", nil, &net.UDPAddr{IP: net.IPv4(127, 0, 0, 1), Port: s.port})
+	if err != nil {
+		return false
+	}
+	defer c.Close()
+	s.mu.Lock()
+	s.barrierN++
+	id := fmt.Sprintf("%08x", s.barrierN)
+	ch := make(chan struct{})
+	if s.barriers == nil {
+		s.barriers = map[string]chan struct{}{}
+	}
+	s.barriers[id] = ch
+	s.mu.Unlock()
+	for i := 0; i < 20; i++ { // (a full socket buffer may drop the marker: send it again)
+		c.Write([]byte(barrierMagic + id))
+		select {
+		case <-ch:
+			return true
+		case <-time.After(500 * time.Millisecond):
+		}
+	}
+	return false
+}
+
 func (s *acctServer) setLate(d time.Duration) { s.mu.Lock(); s.late = d; s.mu.Unlock() }
 
 func (s *acctServer) snapshot() []Rec {
@@ -123,6 +157,16 @@ func (s *acctServer) loop() {
 			return
 		}
 		raw := append([]byte(nil), buf[:n]...)
+		if n == len(barrierMagic)+8 && string(raw[:len(barrierMagic)]) == barrierMagic {
+			s.mu.Lock()
+			ch := s.barriers[string(raw[len(barrierMagic):])]
+			delete(s.barriers, string(raw[len(barrierMagic):]))
+			s.mu.Unlock()
+			if ch != nil {
+				close(ch)
+			}
+			continue
+		}
 		p, err := radius.Parse(raw, s.secret)
 		if err != nil || p.Code != radius.CodeAccountingRequest {
 			s.mu.Lock()
